@@ -25,8 +25,8 @@ def crun (evs : List CEv) : CSt := evs.foldl cstep {}
 /-- as written: two entities declare a use case concurrently, the first declaration is lost -/
 theorem lost_update_witness :
     lookup (crun [.copy 1, .copy 2,
-                  .store 1 (.add [1] 1 ⟨1, 0, true, []⟩),
-                  .store 2 (.add [2] 1 ⟨1, 0, true, []⟩)]).reg [1] 1 1 = none := by decide
+                  .store 1 (.add [1] 1 ⟨1, 0, true, [], 0⟩),
+                  .store 2 (.add [2] 1 ⟨1, 0, true, [], 0⟩)]).reg [1] 1 1 = none := by decide
 
 def atomicOps : List CEv → Option (List Op)
   | [] => some []
@@ -54,5 +54,104 @@ theorem c20_concurrent (evs : List CEv) (ops : List Op) (h : atomicOps evs = som
   unfold crun
   rw [crun_atomic evs ops h {}]
   exact (c20_refines ops hok).2
+
+/-! ### the code as written: which schedules are harmless, and the full statement refuted -/
+
+/-- a schedule of the code as written in which no two read-modify-write cycles overlap: every `copy k` is
+    directly followed by its own `store k o` (serialised `atomic` events are allowed in between) -/
+def calmOps : Option Nat → List CEv → Option (List Op)
+  | none, [] => some []
+  | some _, [] => none
+  | none, .atomic o :: rest => (calmOps none rest).map (o :: ·)
+  | none, .copy k :: rest => calmOps (some k) rest
+  | some k, .store k' o :: rest => if k = k' then (calmOps none rest).map (o :: ·) else none
+  | none, .store _ _ :: _ => none
+  | some _, .copy _ :: _ => none
+  | some _, .atomic _ :: _ => none
+
+/-- the operations of a well-formed schedule of the code as written, in the order of their stores
+    (every store must find its copy; `none` if a store comes without a copy) -/
+def storeOrder : List Nat → List CEv → Option (List Op)
+  | _, [] => some []
+  | open_, .copy k :: rest => storeOrder (k :: open_) rest
+  | open_, .store k o :: rest => if open_.contains k then (storeOrder (open_.erase k) rest).map (o :: ·) else none
+  | open_, .atomic o :: rest => (storeOrder open_ rest).map (o :: ·)
+
+/-- what the state looks like between the events of a calm schedule -/
+def CalmSt (p : Option Nat) (s : CSt) : Prop :=
+  match p with
+  | none => s.copies = []
+  | some k => s.copies = [(k, s.reg)]
+
+theorem crun_calm (evs : List CEv) : ∀ (p : Option Nat) (ops : List Op), calmOps p evs = some ops →
+    ∀ (s : CSt), CalmSt p s → (evs.foldl cstep s).reg = ops.foldl apply s.reg := by
+  induction evs with
+  | nil =>
+    intro p ops h s _
+    cases p with
+    | none => simp only [calmOps, Option.some.injEq] at h; subst h; rfl
+    | some k => simp [calmOps] at h
+  | cons e es ih =>
+    intro p ops h s hs
+    cases p with
+    | none =>
+      cases e with
+      | store k o => simp [calmOps] at h
+      | atomic o =>
+        simp only [calmOps, Option.map_eq_some_iff] at h
+        obtain ⟨ops', hops', rfl⟩ := h
+        simp only [List.foldl_cons, cstep]
+        exact ih none ops' hops' _ hs
+      | copy k =>
+        simp only [calmOps] at h
+        simp only [List.foldl_cons]
+        have hs' : s.copies = [] := hs
+        have := ih (some k) ops h (cstep s (.copy k)) (by simp [CalmSt, cstep, hs'])
+        simpa [cstep] using this
+    | some k =>
+      cases e with
+      | copy k' => simp [calmOps] at h
+      | atomic o => simp [calmOps] at h
+      | store k' o =>
+        simp only [calmOps] at h
+        split at h
+        · rename_i hk; subst hk
+          simp only [Option.map_eq_some_iff] at h
+          obtain ⟨ops', hops', rfl⟩ := h
+          have hs' : s.copies = [(k, s.reg)] := hs
+          have hst : cstep s (.store k o) = { reg := apply s.reg o, copies := [] } := by
+            simp [cstep, hs']
+          simp only [List.foldl_cons, hst]
+          exact ih none ops' hops' _ rfl
+        · simp at h
+
+/-- C20, code as written, PARTIAL: as long as no two read-modify-write cycles overlap, the registry is the
+    specification map folded over the operations -/
+theorem c20_concurrent_partial (evs : List CEv) (ops : List Op) (h : calmOps none evs = some ops) (hok : ∀ op ∈ ops, op.ok) :
+    lookup (crun evs).reg = ops.foldl specStep (fun _ _ _ => none) := by
+  unfold crun
+  rw [crun_calm evs none ops h {} rfl]
+  exact (c20_refines ops hok).2
+
+/-- the witness schedule is well formed, its two operations work on different entities and are valid API use -/
+def lostEvs : List CEv :=
+  [.copy 1, .copy 2, .store 1 (.add [1] 1 ⟨1, 0, true, [], 0⟩), .store 2 (.add [2] 1 ⟨1, 0, true, [], 0⟩)]
+def lostOps : List Op := [.add [1] 1 ⟨1, 0, true, [], 0⟩, .add [2] 1 ⟨1, 0, true, [], 0⟩]
+
+/-- C20, code as written, REFUTED: the full-strength statement "for every well-formed schedule the registry is the
+    specification map folded over the operations in store order" fails on copy₁ copy₂ store₁ store₂ -/
+theorem c20_concurrent_refuted :
+    ¬ (∀ (evs : List CEv) (ops : List Op), storeOrder [] evs = some ops → (∀ op ∈ ops, op.ok) →
+        lookup (crun evs).reg = ops.foldl specStep (fun _ _ _ => none)) := by
+  intro hall
+  have h := hall lostEvs lostOps (by rfl) (by
+    intro op hop
+    simp only [lostOps, List.mem_cons, List.not_mem_nil, or_false] at hop
+    rcases hop with rfl | rfl <;> exact ⟨by decide, by decide⟩)
+  have h1 : lookup (crun lostEvs).reg [1] 1 1 = none := lost_update_witness
+  have h2 : (lostOps.foldl specStep (fun _ _ _ => none)) [1] 1 1 = some ⟨1, 0, true, [], 0⟩ := by decide
+  rw [h] at h1
+  rw [h1] at h2
+  exact absurd h2 (by simp)
 
 end Spine.UC
